@@ -65,6 +65,7 @@ type LockInv struct {
 	Field    string // mutex field
 	Recv     string // name bound to the object
 	Guarded  []string
+	Owned    []string // guarded map fields whose maps are private to the type (never leak)
 	Invs     []Clause
 	PkgPath  string
 }
@@ -145,7 +146,7 @@ func newContractSet() *ContractSet {
 var clauseKeywords = map[string]bool{
 	"requires": true, "ensures": true, "ensures_panic": true, "modifies": true, "loop": true, "call": true,
 	"ghost": true, "property": true, "float": true, "overflow": true, "trusted": true, "pure": true, "nopanic": true,
-	"may_panic": true, "func": true, "spec": true, "lockinv": true, "guarded_by": true, "extern": true, "lemma": true,
+	"may_panic": true, "func": true, "spec": true, "lockinv": true, "guarded_by": true, "owns": true, "extern": true, "lemma": true,
 	"let": true, "captures": true, "hyp": true, "goal": true, "drop": true, "purepkg": true, "flag": true, "results": true,
 	"inline": true, "allocates": true, "havoc_heap": true, "package": true, "specfn": true, "iterates": true, "typeinv": true, "lua": true, "keys": true, "args": true, "intargs": true,
 }
@@ -554,6 +555,14 @@ func (cs *ContractSet) ParseFile(path, pkgPath string) error {
 			}
 			for _, f := range strings.Split(rest, ",") {
 				curLock.Guarded = append(curLock.Guarded, strings.TrimSpace(f))
+			}
+		case "owns":
+			if curLock == nil {
+				errf("owns outside lockinv")
+				continue
+			}
+			for _, f := range strings.Split(rest, ",") {
+				curLock.Owned = append(curLock.Owned, strings.TrimSpace(f))
 			}
 		case "ghost":
 			if strings.HasPrefix(rest, "var ") {
